@@ -10,6 +10,10 @@ TRUST = ("Trusted base: the API-server / kubelet / cache models of internal/worl
 
 # id -> (cmd, category, technique, text, design_ref, note)
 CHECKS = {
+ "C06": ("c06", "model_checking", "bounded-exhaustive snapshot and single-fault enumeration of the real pod control, plus scale-in/out histories",
+         "Set names x claim-template lists x per-claim presence (absent / API only / API+cache) x single faults on every claim create and lookup are each reconciled by the real controller; every created pod and claim is checked field by field and the order 'claims before pod' on the call log; scale-in/scale-out histories check that claims keep their identity.", "4/C06", TRUST),
+ "C19": ("c19", "model_checking", "bounded-exhaustive input enumeration from a reflective generator against reference oracles",
+         "Every single-path mutation (and all pairs among set-level fields) of a built-in StatefulSet, all slot sets over int32 extremes and a family of annotation maps are pushed through the conversion helpers, the hijack client on a fake, the annotation codecs and the defaulter; round trips must be lossless on the modelled fields (computed by reflection), defaulting idempotent.", "4/C19", TRUST),
  "C02": ("c02", "model_checking", "deviation-bounded explicit-state search of the real reconciler + bottom-SCC (fair-convergence) analysis",
          "From thousands of mostly non-initial seed states, all interleavings of reconcile / kubelet progress are explored (deduplicated by canonical state), plus every single deviation (user edit, pod regression, failed API write) from every state; every bottom SCC of the progress graph must be one quiescent goal state, which is exactly convergence under the property's fairness premise.", "4/C02", TRUST),
  "C16": ("c16", "model_checking", "exhaustive event-shape enumeration on the real handlers and worker against a reference function",
